@@ -91,10 +91,12 @@ func Harness_C05_Form() {
 	}
 	tag += "_"
 	vAssert(vEqStr(h[:7], tag), "v1-tag")
+	hexOK := vAnd()
 	for i := 7; i < len(h); i++ {
 		c := h[i]
-		vAssert(vOr(vAnd(c >= '0', c <= '9'), vAnd(c >= 'a', c <= 'f')), "digest-is-lower-hex")
+		hexOK = vAnd(hexOK, vOr(vAnd(c >= '0', c <= '9'), vAnd(c >= 'a', c <= 'f')))
 	}
+	vAssert(hexOK, "digest-is-lower-hex")
 	canon := c05Min(c05Candidates(c05Upper(s), circ, ds))
 	vAssert(vEqStr(h[7:], c05Digest(canon)), "digest-of-least-representative")
 }
